@@ -96,6 +96,8 @@ def from_plan(shape, feats, i, for_codec=True):
         # overlapping search keys (first match wins), the type's own identifier, and a CHAIN: an earlier
         # replacement text that is a later search text must not be substituted again
         replace = [["m1", "m2"], ["m2", "zz"], ["m2", "yy"], [name, "Renamed"]] if mods else [["d%d" % i, name], [name, "Renamed"], ["zzz", "q"]]
+        if i % 3 == 1:      # different segments replaced by the SAME text (entries are told apart by what they search for)
+            replace = [["m1", "same"], ["m2", "same"], [name, "same"]] if mods else [["d%d" % i, "same"], [name, "same"]]
     style = dict(doc_attr="doc_attr_form" in F, combined="combined_attrs" in F, macro_ty="macro_ty" in F and shape != "struct_unit")
     noise = "docs" in F and "rename" in F
     if shape == "struct_unit":
@@ -187,7 +189,8 @@ def rand_decl0(r, i, for_codec=True):
     name = ("R%d" if kind == "struct" else "Q%d") % i
     replace = []
     if r.random() < 0.3: replace = r.choice([[[name, "Other"]], [["mm", "xx"], ["mm", "yy"]], [["nn", "oo"], [name, "N2"], ["zzz", "q"]],
-                                               [["mm", "nn"], ["nn", "mm"]], [["mm", name], [name, "Last"]]])
+                                               [["mm", "nn"], ["nn", "mm"]], [["mm", name], [name, "Last"]],
+                                               [["mm", "same"], ["nn", "same"], [name, "same"]], [[name, "dup"], ["mm", "dup"]]])
     if kind == "struct":
         shape = r.choice(["named", "named", "unnamed", "unit"])
         if shape == "unit":
